@@ -1,5 +1,6 @@
 import RedactVerif.Model.Format
 import RedactVerif.Props.TransFormat
+import RedactVerif.Props.TransParse
 /-
 C14 — format forwarding reproduces the active directive exactly.
 
